@@ -3,7 +3,7 @@ fn main() {
     let o = prqlc::Options::default().no_signature().no_format();
     let mut seen = std::collections::BTreeMap::new();
     for _ in 0..40 {
-        let r = match prqlc::compile(&src, &o) { Ok(s) => s, Err(e) => format!("ERR {:?}", e.inner.iter().map(|m| m.reason.clone()).collect::<Vec<_>>()) };
+        let r = match prqlc::compile(&src, &o) { Ok(s) => s, Err(e) => format!("ERR {:?}", e.inner.iter().map(|m| format!("{} {:?}", m.reason, m.hints)).collect::<Vec<_>>()) };
         *seen.entry(r).or_insert(0) += 1;
     }
     for (k, v) in seen { println!("{v}x {k}"); }
